@@ -66,7 +66,8 @@ Parses(S) == KeysFrom(S, 1)
 (***************************************************************************)
 Kinds == {"identity", "merge_into_next", "shift_name_to_secret", "shift_secret_to_name", "split_chain",
           "flavour_down_spill", "move_secret_to_nameless_next", "reorder", "drop_right", "dup_right",
-          "rename", "drop_secret", "move_secret_to_next", "flip_flag_truncate", "add_right"}
+          "rename", "drop_secret", "move_secret_to_next", "flip_flag_truncate", "add_right",
+          "split_chain_keep_name", "swap_secrets_in_chain", "swap_heads_across"}
 \* kinds that act on the envelope (signature, identifier, other master key): decided outside MacInput
 EnvelopeKinds == {"strip_sig", "alter_sig", "alter_id", "foreign_key", "splice_rights", "swap_sig"}
 
@@ -97,6 +98,9 @@ Applicable(kind, k, i) ==
          [] kind = "move_secret_to_next" -> i < Len(k) /\ k[i + 1].name # <<>> /\ Len(k[i].chain) >= 2
          [] kind = "flip_flag_truncate" -> Last(k[i].chain).h
          [] kind = "add_right" -> i = 1
+         [] kind = "split_chain_keep_name" -> Len(k[i].chain) >= 2 /\ Len(k[i].name) >= 1
+         [] kind = "swap_secrets_in_chain" -> Len(k[i].chain) >= 2 /\ k[i].chain[1] # k[i].chain[2]
+         [] kind = "swap_heads_across" -> i < Len(k) /\ k[i].chain[1] # k[i + 1].chain[1] /\ k[i].chain[1].h = k[i + 1].chain[1].h
 
 Apply(kind, k, i) ==
     CASE kind = "identity" -> k
@@ -131,6 +135,12 @@ Apply(kind, k, i) ==
                              [k[i + 1] EXCEPT !.chain = <<Last(k[i].chain)>> \o @] >>)
       [] kind = "flip_flag_truncate" ->
            Replace(k, i, <<[k[i] EXCEPT !.chain = Front(@) \o <<[h |-> FALSE, b |-> SubSeq(Last(@).b, 1, WSK)]>>]>>)
+      [] kind = "split_chain_keep_name" ->
+           Replace(k, i, << [k[i] EXCEPT !.chain = <<Head(@)>>], [name |-> k[i].name, chain |-> Tail(k[i].chain)] >>)
+      [] kind = "swap_secrets_in_chain" ->
+           Replace(k, i, <<[k[i] EXCEPT !.chain = <<@[2], @[1]>> \o SubSeq(@, 3, Len(@))]>>)
+      [] kind = "swap_heads_across" ->
+           Replace2(k, i, << [k[i] EXCEPT !.chain[1] = k[i + 1].chain[1]], [k[i + 1] EXCEPT !.chain[1] = k[i].chain[1]] >>)
       [] kind = "add_right" -> k \o <<[name |-> <<99>>, chain |-> <<[h |-> FALSE, b |-> [j \in 1..WSK |-> 90 + j]]>>]>>
 
 (***************************************************************************)
